@@ -5,7 +5,7 @@ Import ListNotations.
 From PG Require Import Common.Tactics Model.SymCoreDefs Model.SymCoreOps Model.SymCoreTyped.
 From PG Require Import Proofs.SymCoreBase Proofs.SymCoreWF Proofs.SymCoreWFOps Proofs.SymCoreClone.
 From PG Require Import Proofs.SymCoreTypedBase Proofs.SymCoreTypedConf Proofs.SymCoreTypedCopy Proofs.SymCoreTypedState Proofs.SymCoreTypedLit.
-From PG Require Model.Typing.
+From PG Require Model.Typing Proofs.TypingTheorems.
 Local Open Scope Z_scope.
 
 Section Prims.
@@ -312,6 +312,70 @@ Proof.
   eapply good_missing_out; eauto.
 Qed.
 
+(* --- a symbolic value handed over by reference ----------------------------------------------------------------------- *)
+Lemma ref_decide_ok : forall sc cfl f v, scope_ok sc -> ref_decide ev sc cfl f v = RDAccept ->
+  child_ok ev (part P cfl) f v /\ is_missing v = false.
+Proof.
+  intros sc cfl f v S H. destruct v as [l|i k pa pt fl its]; simpl in H; [discriminate|]. split; [|reflexivity].
+  destruct k as [| |c].
+  - destruct (route true f) eqn:R.
+    + destruct (bound_for true f) as [b|] eqn:B.
+      * match type of H with (if ?c then _ else _) = _ => destruct c eqn:E; [|discriminate] end.
+        apply andb_true_iff in E as [E _]. apply andb_true_iff in E as [_ E]. apply N.eqb_eq in E.
+        simpl. split; auto. rewrite B. exact E.
+      * simpl. split; auto. rewrite B. exact I.
+    + destruct (N.eqb (f_spec fl) 0); [|discriminate]. destruct (Typing.apply _ f _); discriminate.
+  - destruct (route false f) eqn:R.
+    + destruct (bound_for false f) as [b|] eqn:B.
+      * match type of H with (if ?c then _ else _) = _ => destruct c eqn:E; [|discriminate] end.
+        apply andb_true_iff in E as [E _]. apply andb_true_iff in E as [_ E]. apply N.eqb_eq in E.
+        simpl. split; auto. rewrite B. exact E.
+      * simpl. split; auto. rewrite B. exact I.
+    + destruct (N.eqb (f_spec fl) 0); [|discriminate]. destruct (Typing.apply _ f _); discriminate.
+  - destruct (Typing.frozen (Typing.mods_of f)); [discriminate|].
+    destruct (Typing.apply (accepts_partial sc cfl) f (obj_pv c)) as [w|] eqn:A; [|discriminate].
+    destruct (Typing.pv_eqb w (obj_pv c)) eqn:E; [|discriminate]. apply TypingTheorems.pv_eqb_eq in E. subst w.
+    simpl. destruct (accepts_partial sc cfl) eqn:AP.
+    + right. split; auto. apply (accepts_partial_cases sc cfl); auto.
+    + left. exact A.
+Qed.
+
+Lemma formalize_ref_face : forall q sc st r ck cid cfl tpath ins i vpos v nw st1,
+  Conforms st -> locate st i = Some vpos -> get_at st vpos = Some v ->
+  formalize q sc st r ck cid cfl tpath ins (RNodeId i) = (nw, st1) -> same_face v nw.
+Proof.
+  intros q sc st r ck cid cfl tpath ins i vpos v nw st1 C LO G F. simpl in F. rewrite LO, G in F.
+  destruct (needs_clone r ck cid tpath ins vpos v).
+  - destruct (clone_at (q_copy_drops_missing q) false (Some cid) tpath v (next_id st, [])) as [c cs] eqn:CL. inv F.
+    replace nw with (fst (clone_at (q_copy_drops_missing q) false (Some cid) tpath v (next_id st, []))) by (rewrite CL; auto).
+    apply (face_clone_at ev P). eapply conforms_get_at; eauto.
+  - inv F. destruct v as [l|j k pa pt fl its]; simpl; auto. destruct (path_eqb pt tpath); simpl; auto.
+Qed.
+
+Lemma tformalize_s_conf : forall q sc st r ck cid cfl tpath ins f s nw st1,
+  Conforms st -> good f = true -> scope_ok sc ->
+  tformalize_s q false ev sc st r ck cid cfl tpath ins f s = inl (nw, st1) ->
+  cnode nw /\ child_ok ev (part P cfl) f nw /\ Conforms st1 /\ roots_kept st st1 /\
+  (is_missing nw = true -> s = inl Typing.PMissing).
+Proof.
+  intros q sc st r ck cid cfl tpath ins f s nw st1 C G S T. destruct s as [v|rv]; simpl in T.
+  - destruct (tformalize_conf _ _ _ _ _ _ _ _ _ _ _ _ _ C G S T) as (A1 & A2 & A3 & A4 & MS).
+    repeat (split; auto). intros M. f_equal. auto.
+  - unfold tformalize_ref in T. destruct rv as [| |i|]; try discriminate.
+    destruct (locate st i) as [vpos|] eqn:LO; [|discriminate].
+    destruct (get_at st vpos) as [v|] eqn:Gv; [|discriminate].
+    destruct (ref_decide ev sc cfl f v) eqn:RD; try discriminate.
+    assert (F : formalize q sc st r ck cid cfl tpath ins (RNodeId i) = (nw, st1)) by (inversion T; reflexivity).
+    destruct (formalize_conf q sc st r ck cid cfl tpath ins (RNodeId i) nw st1 C I F) as (Cn & C1 & R1).
+    pose proof (formalize_ref_face _ _ _ _ _ _ _ _ _ _ _ _ _ _ C LO Gv F) as SF.
+    destruct (ref_decide_ok _ _ _ _ S RD) as (CO & NM).
+    split; auto. split; [eapply child_ok_face; eauto|]. split; auto. split; auto.
+    intros M. destruct v as [l|j k pa pt fl its]; [simpl in RD; discriminate|].
+    destruct nw; simpl in SF; [contradiction|]. simpl in M. discriminate.
+Qed.
+Lemma xval_missing : forall x, xval x = inl Typing.PMissing -> x_missing x = true.
+Proof. unfold xval, x_missing. intros x H. destruct (r_pv x); inv H. reflexivity. Qed.
+
 Lemma x_missing_pv : forall x v, r_pv x = Some v -> x_missing x = false -> v <> Typing.PMissing.
 Proof. intros x v E M. unfold x_missing in M. rewrite E in M. intro; subst; discriminate. Qed.
 
@@ -340,9 +404,8 @@ Proof.
     match type of L with match ?y with _ => _ end = _ => destruct y as [[k0 old]|] eqn:NE; [|inv L; auto] end.
     destruct (same_obj_t old (r_rv x)); [inv L; auto|].
     destruct (x_missing x && negb (removable mn its 1)) eqn:RM; [inv L; auto|].
-    destruct (r_pv x) as [v|] eqn:PV; [|inv L; auto].
     match type of L with match ?t with _ => _ end = _ => destruct t as [[nw st1]|er] eqn:TF; [|inv L; auto] end.
-    destruct (tformalize_conf _ _ _ _ _ _ _ _ _ _ _ _ _ C Ge S TF) as (Cn & CO & C1 & R1 & MS).
+    destruct (tformalize_s_conf _ _ _ _ _ _ _ _ _ _ _ _ _ C Ge S TF) as (Cn & CO & C1 & R1 & MS).
     inv L. apply conforms_add_detached.
     + eapply conforms_replace_items; eauto.
       * apply MK.
@@ -352,14 +415,13 @@ Proof.
            destruct (x_missing x) eqn:XM.
            ++ simpl in RM. apply negb_false_iff in RM. unfold removable in RM. apply negb_true_iff in RM. lia.
            ++ rewrite (pres1_not_missing nw); [lia|].
-              destruct (is_missing nw) eqn:MN; auto. exfalso. eapply x_missing_pv; eauto.
+              destruct (is_missing nw) eqn:MN; auto. exfalso. rewrite (xval_missing _ (MS eq_refl)) in XM. discriminate.
         -- destruct mx; auto. rewrite zlen_set_nth. auto.
       * apply Forall_set_nth; auto.
     + apply nth_error_In in NE. rewrite Forall_forall in F. exact (F _ NE).
   - destruct (full mx (zlen its)) eqn:FU; [inv L; auto|].
-    destruct (r_pv x) as [v|] eqn:PV; [|inv L; auto].
     match type of L with match ?t with _ => _ end = _ => destruct t as [[nw st1]|er] eqn:TF; [|inv L; auto] end.
-    destruct (tformalize_conf _ _ _ _ _ _ _ _ _ _ _ _ _ C Ge S TF) as (Cn & CO & C1 & R1 & MS).
+    destruct (tformalize_s_conf _ _ _ _ _ _ _ _ _ _ _ _ _ C Ge S TF) as (Cn & CO & C1 & R1 & MS).
     assert (ROOM : match mx with Some mm => zlen its + 1 <= mm | None => True end).
     { unfold full in FU. destruct mx; auto. lia. }
     pose proof (pres1_range nw).
@@ -439,9 +501,9 @@ Proof.
         apply andb_true_iff in DEL as [_ NC]. apply negb_true_iff in NC.
         destruct (key_eqb (KS s) k) eqn:E; auto. apply key_eqb_eq in E. subst k. simpl in NC. congruence.
     + apply Forall_remove_assoc; auto.
-  - match type of L with match ?o with _ => _ end = _ => destruct o as [v0|]; [|inv L; auto] end.
+  - cbv zeta in L.
     match type of L with match ?t with _ => _ end = _ => destruct t as [[nw st1]|er] eqn:TF; [|inv L; auto] end.
-    destruct (tformalize_conf _ _ _ _ _ _ _ _ _ _ _ _ _ C Gf S TF) as (Cn & CO & C1 & R1 & MS).
+    destruct (tformalize_s_conf _ _ _ _ _ _ _ _ _ _ _ _ _ C Gf S TF) as (Cn & CO & C1 & R1 & MS).
     inv L. apply conforms_add_detached; auto.
     eapply conforms_replace_items; eauto.
     + apply MK.
